@@ -1,4 +1,4 @@
-// props: C01
+// props: C01 C13
 // mount: src/reader/content_pack/cluster.rs
 // C01.c: ClusterBuilder::parse (uses spare_capacity_mut / set_len: outside Verus) inverts the frozen cluster tail layout:
 // header(comp, width, count) raw(w) data(w) offsets[0..n-1](w)  ->  ([0] ++ offsets ++ [data], raw).
